@@ -141,6 +141,13 @@ class SigmaDetectionItem(ProcessingItemTrackingMixin, ParentChainMixin):
         else:
             val_list = val
 
+        if SigmaRegularExpressionModifier in modifiers and not all(
+            isinstance(v, str) for v in val_list
+        ):
+            raise sigma_exceptions.SigmaTypeError(
+                "Regular expression modifier is only applicable to string values", source=source
+            )
+
         # Map Python types to Sigma typing classes
         sigma_val = [
             (
